@@ -87,6 +87,7 @@ def space(ctx):
 
 
 def shards(ctx):
+    import androguard.core.axml      # noqa: loaded once in the runner (never called there), inherited by the forked workers
     s = []
     for t in TYPES:
         if t in (0x05, 0x06):
